@@ -2862,13 +2862,14 @@ class PGPKeyring(collections_abc.Container, collections_abc.Iterable, collection
         :raises: :py:exc:`KeyError` if there is no loaded key that satisfies the identifier.
         """
         if isinstance(identifier, PGPMessage):
-            for issuer in identifier.issuers:
-                if issuer in self:
-                    identifier = issuer
-                    break
-
-            else:
+            known = [issuer for issuer in identifier.issuers if issuer in self]
+            if not known:
                 raise KeyError(identifier)
+
+            # an encrypted message is of use to a key that can decrypt it: of several recipients, prefer one
+            # whose private half is loaded over another recipient's public key
+            private = [issuer for issuer in known if not self._get_key(issuer).is_public]
+            identifier = private[0] if identifier.is_encrypted and private else known[0]
 
         if isinstance(identifier, PGPSignature):
             identifier = identifier.signer
